@@ -128,6 +128,14 @@ impl FxTracker {
             });
         }
 
+        if other_fxt.amount.is_zero() {
+            // (Would otherwise divide by zero below)
+            return Err(SheetParseError::new(
+                fxt_row.row_num,
+                format!("FXT on {} has an amount of zero", other_fxt.trade_date),
+            ));
+        }
+
         let rate = (cad_fxt.amount / other_fxt.amount).abs();
 
         let tx = FxTracker::fx_tx(
